@@ -1238,6 +1238,13 @@ func (p *Parser) parseBinding(decl DeclType) (binding IBinding) {
 	}
 	defer func() { p.exprLevel-- }()
 
+	if p.tt == OpenBracketToken || p.tt == OpenBraceToken {
+		// inside a pattern the in operator is allowed, also in the head of a for statement
+		prevIn := p.in
+		p.in = true
+		defer func() { p.in = prevIn }()
+	}
+
 	// BindingIdentifier, BindingPattern
 	if p.isIdentifierReference(p.tt) {
 		var ok bool
